@@ -123,9 +123,9 @@ impl CacheCallback for HCallback {
     }
 }
 
-type S = BuildHasherDefault<std::collections::hash_map::DefaultHasher>;
-type SCache = Cache<u64, V, TabKeys, HCoster, HValidator, HCallback, S>;
-type ACache = AsyncCache<u64, V, TabKeys, HCoster, HValidator, HCallback, S>;
+pub(crate) type S = BuildHasherDefault<std::collections::hash_map::DefaultHasher>;
+pub(crate) type SCache = Cache<u64, V, TabKeys, HCoster, HValidator, HCallback, S>;
+pub(crate) type ACache = AsyncCache<u64, V, TabKeys, HCoster, HValidator, HCallback, S>;
 type SProc = verif::SyncProc<V, HValidator, HCallback, S>;
 type AProc = verif::AsyncProc<V, HValidator, HCallback, S>;
 type SPol = verif::SyncPolicyProc<S>;
@@ -182,7 +182,7 @@ pub struct Config {
     pub start_ms: u64,
 }
 
-fn bo<F: std::future::Future>(f: F) -> F::Output {
+pub(crate) fn bo<F: std::future::Future>(f: F) -> F::Output {
     futures::executor::block_on(f)
 }
 
@@ -221,7 +221,7 @@ impl AnyCache {
 
 pub const MS: u64 = 1_000_000;
 
-fn post(c: &AnyCache) -> Value {
+pub(crate) fn post(c: &AnyCache) -> Value {
     let s = c.snapshot();
     json!({
         "store": s.entries.iter().map(|e| json!({"i":e.index,"c":e.conflict,"v":e.value.id,"r":e.value.rev,"d":e.d / MS,"at":e.at / MS})).collect::<Vec<_>>(),
@@ -254,7 +254,7 @@ fn typed(cmd: Option<&Cmd>, v: Option<&Value>) -> Value {
     }
 }
 
-fn drain_callbacks() -> Vec<Value> {
+pub(crate) fn drain_callbacks() -> Vec<Value> {
     std::mem::take(&mut *CALLBACKS.lock())
 }
 
@@ -1482,9 +1482,127 @@ fn finalize_events(t: &mut Trace, flavor: &str) {
     }
 }
 
+fn key_of(i: u64, f: u64) -> Option<u64> {
+    KEYTAB.iter().position(|p| *p == (i, f)).map(|p| p as u64)
+}
+
+/// execute one TLC-generated schedule (SIM_Cache.tla) on the real cache; steps that are not
+/// executable in the state the real code is in are skipped
+fn run_schedule(sched: &Value, flavor: &'static str, t: Trace) -> (Trace, usize, usize, usize) {
+    let steps = sched.as_array().cloned().unwrap_or_default();
+    let conf = steps.first().cloned().unwrap_or(json!({}));
+    let cfg = Config {
+        flavor: flavor.to_string(),
+        buf_cap: conf["bufcap"].as_u64().unwrap_or(2) as usize,
+        max_cost: conf["max"].as_i64().unwrap_or(3),
+        num_counters: 1000,
+        buffer_items: 64,
+        ignore_internal: true,
+        coster: CosterKind::Const2,
+        validator: ValKind::Always,
+        clients: 2,
+        start_ms: 100_000,
+    };
+    let unit = 250u64; // SIM_Cache: SecUnits = 4
+    let mut w = World::new(cfg, t);
+    let (mut done, mut skipped) = (0usize, 0usize);
+    for st in steps.iter().skip(1) {
+        let a = st["a"].as_str().unwrap_or("");
+        let c = st["c"].as_u64().unwrap_or(1) as usize - 1;
+        let key = key_of(st["i"].as_u64().unwrap_or(0), st["f"].as_u64().unwrap_or(0));
+        let before = w.events;
+        let start = |w: &mut World, cmd: Cmd| {
+            if c < 2 && w.client_idle(c) {
+                w.step_client(c, Some(cmd));
+            }
+        };
+        match (a, key) {
+            ("insert", Some(k)) => start(&mut w, Cmd::Insert { k, cost: st["cost"].as_i64().unwrap_or(1), ttl: st["d"].as_u64().unwrap_or(0) * unit, only: false }),
+            ("insert_if_present", Some(k)) => start(&mut w, Cmd::Insert { k, cost: st["cost"].as_i64().unwrap_or(1), ttl: 0, only: true }),
+            ("remove", Some(k)) => start(&mut w, Cmd::Remove { k }),
+            ("get", Some(k)) => start(&mut w, Cmd::Get { k }),
+            ("get_mut", Some(k)) => start(&mut w, Cmd::GetMut { k }),
+            ("get_ttl", Some(k)) => start(&mut w, Cmd::GetTtl { k }),
+            ("clear", _) => start(&mut w, Cmd::Clear),
+            ("close", _) => start(&mut w, Cmd::Close),
+            ("wait", _) => start(&mut w, Cmd::Wait),
+            ("set_max", _) => start(&mut w, Cmd::SetMax { m: st["m"].as_i64().unwrap_or(1) }),
+            ("cstep", _) => {
+                if c < 2 && !w.client_idle(c) {
+                    w.step_client(c, None);
+                }
+            }
+            ("proc", _) => {
+                if !w.proc_exited() {
+                    let b = match st["b"].as_str().unwrap_or("") {
+                        "insert" => Some(Branch::Insert),
+                        "clear" => Some(Branch::Clear),
+                        "tick" => Some(Branch::Tick),
+                        "stop" => Some(Branch::Stop),
+                        _ => None,
+                    };
+                    if w.proc_parked() {
+                        w.step_proc(Branch::Insert);
+                    } else if let Some(b) = b {
+                        w.step_proc(b);
+                    }
+                }
+            }
+            ("pol", _) => w.step_pol(Branch::Stop),
+            ("adv", _) => w.advance(st["dt"].as_u64().unwrap_or(1) * unit),
+            _ => {}
+        }
+        if w.events > before {
+            done += 1;
+        } else {
+            skipped += 1;
+        }
+    }
+    w.drain();
+    let hung = w.hung.len();
+    let (t, _) = w.finish();
+    (t, done, skipped, hung)
+}
+
 pub fn run(o: &Opts) -> i32 {
     let seed = o.u64("seed", 1);
     let out = o.str("out", "/verif/work/cache.ndjson");
+    if let Some(sf) = o.get("sched") {
+        let flavor: &'static str = if o.str("flavor", "sync") == "async" { "async" } else { "sync" };
+        sched::install();
+        if flavor == "async" {
+            sched::set_pass_through(&["open_checked", "rem_send"]);
+        } else {
+            sched::set_pass_through(&["open_checked"]);
+        }
+        verif::events_enable(true);
+        std::panic::set_hook(Box::new(|_| {}));
+        let mut t = Trace::create(&out);
+        let (mut n, mut done, mut skipped, mut hung) = (0, 0, 0, 0);
+        for line in std::fs::read_to_string(sf).unwrap_or_default().lines() {
+            if let Ok(v) = serde_json::from_str::<Value>(line) {
+                let (t2, d, s, h) = run_schedule(&v, flavor, t);
+                t = t2;
+                n += 1;
+                done += d;
+                skipped += s;
+                hung += h;
+            }
+        }
+        let lines = t.finish();
+        let mut stats: HashMap<String, u64> = HashMap::new();
+        if let Ok(s) = std::fs::read_to_string(&out) {
+            for l in s.lines() {
+                if let Ok(v) = serde_json::from_str::<Value>(l) {
+                    if let Some(e) = v["ev"].as_str() {
+                        *stats.entry(e.to_string()).or_insert(0) += 1;
+                    }
+                }
+            }
+        }
+        println!("{}", json!({"instances":n,"lines":lines,"events":lines,"steps_executed":done,"steps_skipped":skipped,"hung":hung,"out":out,"flavor":flavor,"hist":stats}));
+        return 0;
+    }
     let prof = o.str("profile", "seq");
     let flavor: &'static str = if o.str("flavor", "sync") == "async" { "async" } else { "sync" };
     let n = o.u64("n", 20) as usize;
